@@ -101,7 +101,8 @@ def convert(model: nn.Module, input_example: Any, conversion_type: str,
     add_node_properties(mod)
     if conversion_type in ('autoimport', 'export'):
         # dictionary of shared feature maskers. Used only in 'autoimport' mode.
-        sm_dict = {} if conversion_type != 'autoimport' else build_shared_features_map(mod)
+        sm_dict = {} if conversion_type != 'autoimport' else build_shared_features_map(
+            mod, exclude_names, exclude_types)
         convert_layers(mod, conversion_type, sm_dict, exclude_names, exclude_types, fold_bn)
     if conversion_type in ('autoimport', 'import'):
         fuse_pit_modules(mod, fold_bn)
@@ -156,7 +157,10 @@ def convert_layers(mod: fx.GraphModule,
     return
 
 
-def build_shared_features_map(mod: fx.GraphModule) -> Dict[fx.Node, PITFeaturesMasker]:
+def build_shared_features_map(mod: fx.GraphModule,
+                              exclude_names: Iterable[str] = (),
+                              exclude_types: Iterable[Type[nn.Module]] = ()
+                              ) -> Dict[fx.Node, PITFeaturesMasker]:
     """Create a map from fx.Node instances to instances of PITFeaturesMasker to be used by PIT
     to optimize the number of features of that node. Handles the sharing of masks among
     multiple nodes.
@@ -204,6 +208,7 @@ def build_shared_features_map(mod: fx.GraphModule) -> Dict[fx.Node, PITFeaturesM
                 # distinguish the case in which the number of features must "frozen"
                 # i.e. the case of input-connected or output-connected components,
                 if (
+                    any(feeds_excluded_layer(n, mod, exclude_names, exclude_types) for n in c) or
                     any(n in get_graph_inputs(mod.graph) for n in c) or
                     any(n in get_graph_outputs(mod.graph) for n in c) or
                     any(n.meta.get('output_connected', False) for n in c)
@@ -215,6 +220,15 @@ def build_shared_features_map(mod: fx.GraphModule) -> Dict[fx.Node, PITFeaturesM
         for n in c:
             sm_dict[n] = sm
     return sm_dict
+
+
+def feeds_excluded_layer(n: fx.Node, mod: fx.GraphModule,
+                         exclude_names: Iterable[str],
+                         exclude_types: Iterable[Type[nn.Module]]) -> bool:
+    """Returns True if one of the users of `n` is a layer that PIT could optimize, but that is
+    excluded from the search: its input features cannot be pruned, since it is exported as is."""
+    return any(is_layer(u, mod, tuple(pit_layer_map.keys())) and
+               exclude(u, mod, exclude_names, exclude_types) for u in n.users)
 
 
 def exclude(n: fx.Node, mod: fx.GraphModule,
